@@ -267,6 +267,16 @@ def compound_statements(depth2=True):
         out.append(ir.Loop(pos, ir.Block([*body.statements, dec])))
         out.append(ir.Loop(ir.And(pos, ir.BooleanLiteral(True)), ir.Block([dec, *body.statements])))
         out.append(ir.Loop(XB, ir.Block([*body.statements, ir.Assignment(XB, ir.BooleanLiteral(False))])))
+    # counting loops (the shape dense iteration ends with): the zero-trip case must leave the counter alone
+    inc = ir.Assignment(XI, ir.Add(XI, ir.IntegerLiteral(1)))
+    for bound in (YI, ir.IntegerLiteral(0), ir.IntegerLiteral(2), ir.ArrayIndex(A, ir.IntegerLiteral(0))):
+        for cmp in (ir.LessThan, ir.LessThanOrEqual, ir.NotEqual):
+            if cmp is ir.NotEqual and bound is not YI:
+                continue
+            out.append(ir.Loop(cmp(XI, bound), ir.Block([inc])))
+            out.append(ir.Block([ir.Loop(cmp(XI, bound), ir.Block([inc])), ir.Assignment(ir.ArrayIndex(A, ir.IntegerLiteral(1)), XI)]))
+            out.append(ir.Loop(cmp(XI, bound), ir.Block([ir.Assignment(ir.ArrayIndex(V, ir.IntegerLiteral(0)),
+                                                          ir.Add(ir.ArrayIndex(V, ir.IntegerLiteral(0)), XF)), inc])))
     out.append(ir.Loop(pos, empty))
     out.append(ir.Loop(XB, empty))
     out.append(ir.Loop(XB, ir.Block([ir.Assignment(XI, XI)])))
